@@ -461,6 +461,15 @@ func runC09(c *Ctx) {
 				return true
 			}
 
+			// constructed with the limit already switched off by option: nothing to follow
+			for _, in := range Find(f, func(in ssa.Instruction) bool {
+				call, ok := in.(*ssa.Call)
+
+				return ok && Glob("github.com/cenkalti/backoff/*.NewExponentialBackOff", p.CalleeName(call)) && !ctor(in)
+			}) {
+				c.OK("R09.10", FuncName(f)+" :: NewExponentialBackOff ⇒ MaxElapsedTime = 0 before use", in.Pos(), "WithMaxElapsedTime(0) option")
+			}
+
 			if len(Find(f, ctor)) == 0 {
 				continue
 			}
